@@ -202,6 +202,7 @@ fn case(variant: u8, max_tasks: usize, pct: bool) -> impl Strategy<Value = Case>
 
 pub fn run(ctx: &Ctx) -> ! {
     let mut rep = Report::new(ctx, "exploration");
+    rep.crash_guard = true;
     crate::engine_assumptions(&mut rep);
     rep.assume(
         "futex model: FUTEX_WAIT = atomically (w.r.t. FUTEX_WAKE) `if *addr != val return EAGAIN else block`, may \
